@@ -217,6 +217,15 @@ def X_execute_task_tail(ctx):
     ps = feasible(f.paths())
     att = [p for p in ps if exec_after_attempt(p) is not None]
     ctx.ob('X', f, 'anchor:attempt-paths', len(att) >= 10, f'{len(att)} paths pass execute_incarnation', site=f.loc(f.b['lo']))
+    # the attempt runs THIS task's version on THIS transaction
+    bad_att = []
+    for p in att:
+        e = p.events[exec_after_attempt(p)]
+        a = e.d['args']
+        if not (a[1] == ('arg', 4) and a[2][0] == 'call' and a[2][1].endswith('::index') and mentions_field(a[2][2][0], 'Scheduler.txs') and is_field(strip(a[2][2][1]), 'TxVersion.txid')):
+            bad_att.append(e)
+    ctx.ob('X', f, 'attempt-runs-own-version-on-own-transaction', not bad_att, '; '.join(site(f, e) for e in bad_att[:2]), site=f.loc(f.b['lo']),
+           what='execute_incarnation(tx_version, txs[txid])')
     # L7/X4: executed(txid) on every non-abort completion
     bad = []
     for p in att:
@@ -797,6 +806,13 @@ def N10_commit_loop(ctx):
         for e in calls(p, "OrderedCommitter::<'a, DB>::commit"):
             if not (first_out and e.d['args'][4] == first_out[0].d['result']):
                 bad_ret.append(e)
+            # commit(i, &txs[i], result taken from tx_results[i])
+            a = e.d['args']
+            ix = strip(a[1])
+            ok_ix = a[2][0] == 'call' and a[2][1].endswith('::index') and mentions_field(a[2][2][0], 'Scheduler.txs') and strip(a[2][2][1]) == ix \
+                and mentions_field(a[3], 'Scheduler.tx_results') and any(c[1].endswith('::index') and mentions_field(c[2][0], 'Scheduler.tx_results') and strip(c[2][1]) == ix for c in calls_in(a[3]))
+            if not ok_ix:
+                bad_take.append(e)
         ab = calls(p, 'Scheduler<DB>>::abort')
         if not ab:
             # must be a loop-condition exit: last decided loop condition is aborted==true or idx<block_size false
